@@ -623,7 +623,7 @@ def server_case(psk, reqcert, ops, early=0):
 def gen_client_flights(ctx):
     rng = ctx.rng
     cases = []
-    seqs = set(words(FLIGHT, 6, 1)) | set(words(FLIGHT, 4, 4))
+    seqs = set(words(FLIGHT, 6, 1)) | set(words(FLIGHT, 5, 5))
     if ctx.thorough:
         seqs |= set(words(FLIGHT, 6, 6))
     seqs = sorted(seqs)
@@ -778,7 +778,37 @@ def _opname(o):
     return "%s/%s" % (o[0], o[1] if len(o) > 1 and not isinstance(o[1], list) else "good")
 
 
+class OracleOnly(corr.Suite):
+    """used when the translator failed (coq/gen/TlsDispatch.v is stale, so the model is not the model of this
+    tree): only the implementation oracle is run - the search for a concrete failing input"""
+
+    def run(self, cases, label=""):
+        st = self.stats
+        reported = 0
+        for c in cases:
+            st["cases"] += 1
+            st["steps"] += len(c["ops"])
+            if len(c["ops"]) >= 3:
+                st["distinct_nontrivial"] += 1
+            if len(st["samples"]) < 3:
+                st["samples"].append({"suite": self.name, "case": corr._short(c), "output_tokens": impl(c)[:40]})
+            bad = corr._safe(self.oracle, c)
+            if bad:
+                st["oracle_failures"] += 1
+                if reported < 3:
+                    reported += 1
+                    small = self.shrink(c, lambda x: bool(corr._safe(self.oracle, x)))
+                    what, sig = corr._safe(self.oracle, small) or bad
+                    self.ctx.violation("impl-violation", "%s: %s" % (self.name, what), corr._short(small, 4000), signature=sig)
+        return st
+
+
 def suites(ctx):
+    stale = any("c11_dispatch" in g for g in ((ctx.build or {}).get("gen_errors") or []))
+    if stale:
+        ctx.notes.append("translator failed: model is stale, correspondence skipped, oracle only")
+        mk = lambda name: OracleOnly(ctx, name, "exec_tlssm", encode, impl, oracle, _ops, _rebuild, opname=_opname)  # noqa: E731
+        return mk("client_victim"), mk("server_victim")
     cv = corr.Suite(ctx, "client_victim", "exec_tlssm", encode, impl, oracle, _ops, _rebuild,
                     nontrivial=lambda c, out: len(c["ops"]) >= 3, opname=_opname)
     sv = corr.Suite(ctx, "server_victim", "exec_tlssm", encode, impl, oracle, _ops, _rebuild,
@@ -804,12 +834,12 @@ def run(ctx):
     return corr.merge_coverage(
         [cv, sv],
         "key-holding adversary against real tls.Context victims: every (state, type byte) pair on a Context driven into that "
-        "state; all words over {EE,CR,Cert,CV,Fin} up to length 6 with at most one repetition plus all words up to length 4 "
+        "state; all words over {EE,CR,Cert,CV,Fin} up to length 6 with at most one repetition plus all words up to length 5 "
         "(thorough: all words up to length 6) x {no PSK, PSK selected, PSK offered but not selected}; check-failure "
         "valuations (bad MAC / signature / untrusted / expired certificate / truncated) of the near-legal flights; server "
         "victim: all words over {Cert, Cert(empty), CV, CV(bad), Fin, Fin(bad), EE, CR} up to length 4 x PSK x "
         "client-certificate request; random longer words with fragmentation. distinct = distinct model token encoding",
-        {"state_type_pairs_probed": len(pairs), "client_flight_cases": len(fc), "server_flight_cases": len(fs),
+        {"correspondence_skipped_translator_failed": isinstance(cv, OracleOnly), "state_type_pairs_probed": len(pairs), "client_flight_cases": len(fc), "server_flight_cases": len(fs),
          "runs_reaching_post_handshake": completed, "outcome_histogram_all_ops": outcomes})
 
 
